@@ -1,9 +1,9 @@
 package main
 
 import (
-	"go/constant"
 	"fmt"
 	"go/ast"
+	"go/constant"
 	"go/token"
 	"go/types"
 	"sort"
@@ -396,54 +396,85 @@ func c01Const(c *Ctx, rule string) {
 		}
 	}
 	r.Check("packet.maxVarint", c.constInt("packet", "maxVarint") == 268435455, 0, 1, "maximum remaining length 268435455")
-	// readVarint clamp
+	// readVarint: a remaining length occupies 1..4 bytes — every successful path of readVarint consumes between
+	// one and four bytes, whatever the implementation looks like (LIN engine, path summaries)
 	if rv := c.P.Func("packet.readVarint"); rv != nil {
 		c.Touch(rv.Name)
-		ok := false
-		ast.Inspect(rv.Decl.Body, func(m ast.Node) bool {
-			if is, isIf := m.(*ast.IfStmt); isIf {
-				if b, isB := ast.Unparen(is.Cond).(*ast.BinaryExpr); isB && b.Op == token.GTR {
-					if tv, has := rv.Pkg.TypesInfo.Types[b.Y]; has && tv.Value != nil && tv.Value.ExactString() == "4" {
-						ast.Inspect(is.Body, func(k ast.Node) bool {
-							if sl, isS := k.(*ast.SliceExpr); isS && sl.High != nil {
-								if tv2, has2 := rv.Pkg.TypesInfo.Types[sl.High]; has2 && tv2.Value != nil && tv2.Value.ExactString() == "4" {
-									ok = true
-								}
-							}
-							return true
-						})
-					}
+		la := c.P.newLin()
+		sum := la.summary(rv.Obj, false)
+		ok, nOK := sum != nil && len(sum.undec) == 0, 0
+		why := ""
+		if sum != nil {
+			for _, p := range sum.paths {
+				if len(p.results) != 3 || p.results[2] == nil || p.results[2].kind != lkErr || p.results[2].nil_ != -1 {
+					continue // error path (or undetermined): nothing is accepted there
 				}
-			}
-			return true
-		})
-		r.Check("packet.readVarint:4-byte clamp", ok, rv.Decl.Pos(), 1, "a remaining length is at most 4 bytes (== largest varintLen)")
-	} else {
-		r.Undecided("packet.readVarint", 0, "not found")
-	}
-	// Decoder.Read detection window
-	if rd := c.P.ByObj[c.P.Method("packet", "Decoder", "Read")]; rd != nil {
-		c.Touch(rd.Name)
-		in := c.traces(rd)
-		start, limit := int64(-1), int64(-1)
-		for _, t := range in.Traces {
-			for _, e := range t.Ev {
-				if e.Kind == EvAssign && e.LObj != nil && e.RVal.K == VInt && strings.Contains(strings.ToLower(e.LObj.Name()), "detection") && start < 0 {
-					start = e.RVal.I
+				nOK++
+				if p.results[1] == nil || p.results[1].kind != lkInt || !la.prove(p.cons, p.results[1].lin.sub(leConst(1))) || !la.prove(p.cons, leConst(4).sub(p.results[1].lin)) {
+					ok, why = false, "a successful path may consume fewer than 1 or more than 4 bytes"
 				}
 			}
 		}
-		ast.Inspect(rd.Decl.Body, func(m ast.Node) bool {
-			if b, ok := m.(*ast.BinaryExpr); ok && b.Op == token.GTR {
-				if id, ok := ast.Unparen(b.X).(*ast.Ident); ok && strings.Contains(strings.ToLower(id.Name), "detection") {
-					if tv, has := rd.Pkg.TypesInfo.Types[b.Y]; has && tv.Value != nil {
-						fmt.Sscan(tv.Value.ExactString(), &limit)
+		r.Check("packet.readVarint:4-byte clamp", ok && nOK > 0, rv.Decl.Pos(), nOK, "a remaining length is at most 4 bytes (== largest varintLen): "+why)
+	} else {
+		r.Undecided("packet.readVarint", 0, "not found")
+	}
+	// Decoder.Read detection window: the header is looked at with Peek(n), n = 2, 3, 4, 5 in this order (2 = the
+	// smallest packet, 5 = type byte + 4 length bytes), and detection gives up only beyond 5 — decided with the LIN
+	// engine on whatever loop form the function uses
+	if rd := c.P.ByObj[c.P.Method("packet", "Decoder", "Read")]; rd != nil {
+		c.Touch(rd.Name)
+		ovErr := c.P.Global("packet", "ErrDetectionOverflow")
+		isPeek := func(callee types.Object) bool {
+			f, ok := callee.(*types.Func)
+			return ok && f.FullName() == "(*bufio.Reader).Peek"
+		}
+		var peekVar types.Object
+		first := c.P.newLin()
+		first.OnCall = func(a *linAnalysis, st *lstate, fn string, call *ast.CallExpr, callee types.Object, args []*lval) {
+			if fn == rd.Name && isPeek(callee) && len(call.Args) == 1 {
+				if id, ok := ast.Unparen(call.Args[0]).(*ast.Ident); ok {
+					peekVar = rd.Pkg.TypesInfo.ObjectOf(id)
+				}
+			}
+		}
+		first.summary(rd.Obj, true)
+		la := c.P.newLin()
+		nPeek, peekOK, nOv, ovOK := 0, true, 0, true
+		la.OnCall = func(a *linAnalysis, st *lstate, fn string, call *ast.CallExpr, callee types.Object, args []*lval) {
+			if fn != rd.Name || !isPeek(callee) || len(args) != 1 {
+				return
+			}
+			nPeek++
+			if args[0].kind != lkInt || !a.prove(st.cons, args[0].lin.sub(leConst(2))) || !a.prove(st.cons, leConst(5).sub(args[0].lin)) {
+				peekOK = false
+			}
+		}
+		la.OnReturn = func(a *linAnalysis, st *lstate, fn string, ret *ast.ReturnStmt) {
+			if fn != rd.Name {
+				return
+			}
+			for _, res := range ret.Results {
+				if id, ok := ast.Unparen(res).(*ast.Ident); ok && rd.Pkg.TypesInfo.ObjectOf(id) == ovErr && ovErr != nil {
+					nOv++
+					v := st.env[peekVar]
+					if peekVar == nil || v == nil || v.kind != lkInt || !a.prove(st.cons, v.lin.sub(leConst(6))) {
+						ovOK = false
 					}
 				}
 			}
-			return true
-		})
-		r.Check("packet.(*Decoder).Read:detection 2..5", start == 2 && limit == 5, rd.Decl.Pos(), len(in.Traces), fmt.Sprintf("detection starts with %d bytes and overflows beyond %d (1 type byte + up to 4 length bytes)", start, limit))
+		}
+		sum := la.summary(rd.Obj, true)
+		start, step := false, false
+		for _, lf := range la.Loops {
+			if lf.Fn == rd.Name && lf.Var == peekVar && peekVar != nil {
+				start = lf.EntryOK && lf.Entry == 2
+				step = lf.StepOne
+			}
+		}
+		und := sum == nil || len(sum.undec) > 0 || peekVar == nil
+		r.Check("packet.(*Decoder).Read:detection 2..5", !und && nPeek > 0 && peekOK && nOv > 0 && ovOK && start && step, rd.Decl.Pos(), la.Paths,
+			fmt.Sprintf("header detection must Peek 2,3,4,5 bytes in this order and give up only beyond 5: Peek sites %d (all within 2..5: %v), starts at 2: %v, grows by one per attempt: %v, overflow returns %d (only when the length exceeds 5: %v)", nPeek, peekOK, start, step, nOv, ovOK))
 	}
 	// length prefix
 	if wl := c.P.Func("packet.writeLPBytes"); wl != nil {
@@ -690,7 +721,7 @@ func c02Admit(c *Ctx, rule string) {
 		for _, t := range din0.Traces {
 			for _, e := range t.Ev {
 				if e.Kind == EvAssign && e.LObj == mf.msgTopic && e.RHS != nil {
-					if o := dh.objOf(e.RHS); o != nil {
+					if o := evRHSObj(dh, e); o != nil {
 						force0[o] = true
 					}
 				}
